@@ -392,6 +392,22 @@ func init() {
 			}
 			f.PopMove()
 		}
+		// moves accepted by Position.Move for either colour (PositionPlay iterates both; for the side not to move this
+		// includes en-passant captures onto the en-passant target of the side to move)
+		accepted := func(c board.Color) (n, ep int) {
+			for _, m := range pos.PseudoLegalMoves(c) {
+				if _, ok := pos.Move(m); ok {
+					n++
+					if m.Type == board.EnPassant {
+						ep++
+					}
+				}
+			}
+			return
+		}
+		ns, es := accepted(turn)
+		no, eo := accepted(turn.Opponent())
+		out = append(out, fmt.Sprintf("nmoves=%d/%d ep=%d/%d", ns, no, es, eo))
 		out = append(out, fmt.Sprintf("legal=%d considerable=%s", nlegal, strings.Join(cons, ",")))
 		return strings.Join(out, " ")
 	})
@@ -487,6 +503,12 @@ func genTurochamp(o *Out, r *rand.Rand, thorough bool) {
 			if p.Piece(c, board.Queen).PopCount() > 1 {
 				o.Count("tc:several-queens")
 			}
+		}
+		if !strings.Contains(res, " ep=0/0 ") {
+			o.Count("tc:en-passant-move-accepted")
+		}
+		if strings.Contains(res, " ep=") && !strings.Contains(res, "/0 legal=") {
+			o.Count("tc:en-passant-move-accepted-for-side-NOT-to-move")
 		}
 		if strings.Contains(res, "mate=1") {
 			o.Count("tc:mate-threat")
